@@ -312,6 +312,16 @@ def eval_call(ex, node, st, want):
             if old_cnt is None or new_cnt is None:
                 raise OutOfSubset('fresh() without allocation counter')
             return SV(T.BOOL, z3.And(x.t >= old_cnt, x.t < new_cnt))
+        if name == 'is_identity':
+            fv = ex.ev(node.args[0], st)
+            if fv.extra and fv.extra[0] == 'lambda':
+                lam = fv.extra[1]
+                ok = len(lam.args.args) == 1 and isinstance(lam.body, ast.Name) and lam.body.id == lam.args.args[0].arg
+                return SV(T.BOOL, z3.BoolVal(bool(ok)))
+            if isinstance(fv.ty, T.Fun) and fv.t is not None and len(fv.ty.args) == 1:
+                x = z3.Const('x!id%d' % next(_fresh_counter), fv.ty.args[0].sort())
+                return SV(T.BOOL, z3.ForAll([x], fv.t(x) == x))
+            raise OutOfSubset('is_identity of %s' % fv.ty)
         if name == 'allocates':
             # exactly n objects were allocated since the old state
             n = ex.ev(node.args[0], st, T.INT)
@@ -729,6 +739,14 @@ def eval_method(ex, node, base, meth, st, want):
         ex.safety(st, z3.Not(ty.is_none(base.t)), 'method-on-None')
         inner = SV(ty.inner, ty.get(base.t))
         # mutation through Opt: wrap back
+        if meth == 'append' and isinstance(ty.inner, T.Seq):
+            x = ex.ev(args[0], st, ty.inner.elem)
+            c = coerce(x, ty.inner.elem)
+            if c is None:
+                raise OutOfSubset('append %s to %s' % (x.ty, ty))
+            newinner = seq_append(inner, c.t)
+            ex.assign_back(f.value, SV(ty, ty.some(newinner.t)), st)
+            return SV(T.NONE, z3.BoolVal(True))
         if meth in ('append', 'extend', 'pop', 'update', 'setdefault', 'remove'):
             raise OutOfSubset('mutating method on Optional container')
         return eval_method(ex, node, inner, meth, st, want)
@@ -931,6 +949,9 @@ def resolve_contract(ex, node, method_of=None):
             for k, con in S.CONTRACTS.items():
                 if con.qual == name and (con.module or '').endswith(f.value.id):
                     return con, None
+            for k, con in S.CONTRACTS.items():
+                if con.qual == name + '.__init__' and (con.module or '') == f.value.id:
+                    return con, name
         raise OutOfSubset('no contract for %s (line %s)' % (ast.unparse(f), node.lineno))
     key = ovr.get(name)
     if key:
@@ -1064,6 +1085,24 @@ def call_contract(ex, node, st, want, method_of=None):
                 g = truthy(cex.ev(r, cst))
                 cex.guards = list(ex.guards)
                 ex.oblige(st, g, 'pre', '%s#%d@L%d' % (label, i, node.lineno), text=ast.unparse(r), lineno=node.lineno)
+        finally:
+            ctx.mode = saved_mode
+    # 1b. a callee that raises under a stated condition: either the caller may raise then too, or it must not happen
+    if con.raises is not None and con.raises.get('when') and ctx.mode == 'code':
+        ctx.mode = 'spec'
+        try:
+            w = truthy(cex.ev(parse_exprs([con.raises['when']])[0], cst))
+            mine = ex.contract.raises if ex.contract is not None else None
+            if mine is not None and st.old is not None:
+                ost = State()
+                ost.env, ost.heap = dict(st.old.env), dict(st.old.heap)
+                allowed = truthy(ex.ev(parse_exprs([mine['when']])[0], ost)) if mine.get('when') else z3.BoolVal(True)
+                ex.oblige(st, z3.Implies(w, allowed), 'raises', 'propagated-from-%s@L%d' % (label, node.lineno),
+                          text='callee raises when %s' % con.raises['when'], lineno=node.lineno)
+            else:
+                ex.oblige(st, z3.Not(w), 'raises', 'callee-must-not-raise-%s@L%d' % (label, node.lineno),
+                          text='not (%s)' % con.raises['when'], lineno=node.lineno)
+            st.pc.append(z3.Not(w))
         finally:
             ctx.mode = saved_mode
     if con.trusted:
